@@ -160,15 +160,15 @@ type Attempt struct {
 	Data     []byte
 	Frame    *Frame // the frame that was entered, nil when refused up front
 	// outcome as seen by the caller
-	Ret       []byte
-	RetKnown  bool
-	Failed    bool // caller saw 0 / an error
-	Returned  uint64
-	RetGasOK  bool // Returned is known
-	ErrText   string
-	ErrKnown  bool
-	Precomp   bool
-	Tree      bool // recorded in the call tree (CALL/CREATE/CREATE2 and top-level call/create)
+	Ret      []byte
+	RetKnown bool
+	Failed   bool // caller saw 0 / an error
+	Returned uint64
+	RetGasOK bool // Returned is known
+	ErrText  string
+	ErrKnown bool
+	Precomp  bool
+	Tree     bool // recorded in the call tree (CALL/CREATE/CREATE2 and top-level call/create)
 }
 
 func memWindow(mem []byte, off, size uint64) []byte {
